@@ -148,6 +148,8 @@ func (s *Sim) wait() error {
 	return nil
 }
 
+var errNotEnabled = fmt.Errorf("not enabled")
+
 // Step releases one parked process for one operation (gate to gate).
 func (s *Sim) Step(tok string, env Env) ([]string, error) {
 	role, ok := s.Role[tok]
@@ -156,6 +158,16 @@ func (s *Sim) Step(tok string, env Env) ([]string, error) {
 	}
 	w := s.W
 	w.beginOp(env)
+	// a process that cannot take a step right now (nothing to receive, timer not due): the action is a no-op
+	enabled := false
+	for _, p := range s.Procs() {
+		if p.Tok == tok && p.Enabled {
+			enabled = true
+		}
+	}
+	if !enabled {
+		return nil, errNotEnabled
+	}
 	w.Mon.beginOp(role, tok)
 	w.S.release(role)
 	if err := s.wait(); err != nil {
@@ -358,6 +370,9 @@ func (s *Sim) Dup(i int) bool {
 	e := *s.W.log[i]
 	e.ID = int64(len(s.W.log)) + 1
 	s.W.log = append(s.W.log, &e)
+	if aw, ok := s.W.Mon.evWrite[i]; ok {
+		s.W.Mon.evWrite[len(s.W.log)-1] = aw
+	}
 	s.W.Mon.dups++
 	return true
 }
